@@ -61,6 +61,7 @@ package mvp6_2
 //@   ensures forall i :: 0 <= i && i < len(m.executeUnits) ==> m.executeUnits[i].Coroutine.isStart
 //@   ensures len(m.decodeBus.queue) == 0 && len(m.decodeBus.buffer) == 0 && len(m.controlBus.queue) == 0 && len(m.controlBus.buffer) == 0 && len(m.executeBus.queue) == 0 && len(m.executeBus.buffer) == 0 && len(m.writeBus.queue) == 0 && len(m.writeBus.buffer) == 0
 //@   ensures len(m.ctx.PendingWriteRegisters) == 0 && len(m.ctx.PendingReadRegisters) == 0
+//@   ensures m.controlUnit.pendings != nil && fresh(m.controlUnit.pendings) && !m.controlUnit.pendingConditionalBranch && m.controlUnit.pushedRunnersInPreviousCycle == nil
 //@   loop 0: invariant wired(m) && m.executeUnits == old(m.executeUnits) && (forall i :: 0 <= i && i < _idx0 ==> m.executeUnits[i].Coroutine.isStart)
 //@   loop 0: invariant m.fetchUnit.pc == pc && !m.fetchUnit.complete && !m.decodeUnit.pendingBranchResolution && !m.decodeUnit.ret
 
@@ -75,6 +76,8 @@ package mvp6_2
 //@   -- (C03) an execute unit's error ends the run only if no flush was requested in the same cycle
 //@   -- by a unit scanned before it: a wrong-path instruction must not make the run fail (known finding F22)
 //@   return 0: !flush
+//@   -- when Run returns no register write is left speculative (final commit)
+//@   return 2: len(m.ctx.Transaction) == 0 && (forall r risc.RegisterType :: !(r in m.ctx.Transaction))
 //@   loop 0: invariant cycle >= 0 && wired(m)
 //@   loop 0: exit writesDone(m)
 //@   loop 0: exit executeUnitsIdle(m)
